@@ -1,6 +1,8 @@
 package bitcoin_reader
 
 import (
+	"bytes"
+
 	"github.com/tokenized/bitcoin_reader/headers"
 	"github.com/tokenized/pkg/bitcoin"
 	"github.com/tokenized/pkg/wire"
@@ -148,3 +150,46 @@ func VerifC15Headers() {
 	verifAssert(left == 0, "goroutine-left-blocked-after-message")
 	verifReach("done")
 }
+
+func init() {
+	verifHarnesses["VerifC15Block"] = VerifC15Block
+}
+
+// VerifC15Block: the peer answers a pending block request with the requested header followed by
+// an arbitrary transaction count and arbitrary (hostile, truncated) transaction bytes, in classic or
+// extended framing: the process never crashes and nothing stays blocked.
+func VerifC15Block() {
+	maxBytes := verifParam("maxtxbytes", 6)
+	e := newNetEnv(true)
+	e.makeReady()
+	header := &wire.BlockHeader{Version: 1, Timestamp: 1600000000, Bits: 0x1d00ffff, Nonce: 11}
+	hash := *header.BlockHash()
+	handlerErr := nondetBool("handler-fails")
+	e.node.RequestBlock(e.ctx, hash, func(ctx contextT, hd *wire.BlockHeader, c uint64, ch <-chan *wire.MsgTx) error {
+		for range ch {
+		}
+		if handlerErr {
+			return ErrWrongBlock
+		}
+		return nil
+	}, func(contextT) {})
+	e.drainOutgoing()
+	var payload []byte
+	{
+		var buf bytesBuffer
+		header.Serialize(&buf)
+		payload = buf.Bytes()
+	}
+	// tx count: one byte varint (0..252) or a multi-byte form chosen by the solver
+	payload = append(payload, nondetU8("txcount"))
+	n := pick("txbytes", maxBytes+1)
+	payload = append(payload, nondetBytes("txdata", n)...)
+	e.conn.in = frameMsg(wire.CmdBlock, payload, nondetBool("extended"))
+	err := e.node.handleMessage(e.ctx, e.conn)
+	left := verifQuiesce()
+	verifObserve("block", n, err == nil)
+	verifAssert(left == 0, "goroutine-left-blocked-after-message")
+	verifReach("done")
+}
+
+type bytesBuffer = bytes.Buffer
